@@ -354,7 +354,9 @@ PROPS['C13'] = dict(
     ],
 )
 
-PIPELAB_NOTE = (SAN_NOTE + 'Catalogue pipes only (see evidence observed/pipe.*); '
+PIPELAB_NOTE = (SAN_NOTE + 'Pipes driven: the catalogue (36 pipes with a reference model) and, '
+                'for C01 / C04, the life cycles of 36 more module, TS and filter pipes '
+                '(see evidence observed/pipe.*); '
                 'the driver obeys the ownership / ordering protocol of a '
                 'well-behaved upstream (no input before an accepted flow '
                 'definition, one release per reference).')
